@@ -659,6 +659,27 @@ theorem canonGo_nulFree {u r : Bytes} (hu : NulFree u) (b : Bool) (h : canonGo b
 
 /-! ### the whole function -/
 
+/-- explicit shape of an array that holds `r`, has the old length, and whose part behind the old NUL is `tl` -/
+theorem explicit_of_holds {m' : Mem} {r : Bytes} {n : Nat} {tl : Mem} (hh : Holds m' r)
+    (hlen : m'.length = n + 1 + tl.length) (hdrop : m'.drop (n + 1) = tl) (hrl : r.length ≤ n) :
+    ∃ junk : Mem, m' = r ++ 0 :: (junk ++ tl) ∧ r.length + junk.length = n := by
+  obtain ⟨x, hx⟩ := hh
+  have hxl : x.length = (n - r.length) + tl.length := by
+    have := hlen; rw [hx] at this; simp at this; omega
+  have hxd : x.drop (n - r.length) = tl := by
+    have e : m'.drop (n + 1) = x.drop (n - r.length) := by
+      rw [hx]
+      have : n + 1 = (r ++ [0]).length + (n - r.length) := by simp; omega
+      rw [this, ← List.drop_drop]
+      have : r ++ 0 :: x = (r ++ [0]) ++ x := by simp
+      rw [this, List.drop_left]
+    rw [← e, hdrop]
+  refine ⟨x.take (n - r.length), ?_, ?_⟩
+  · rw [hx]
+    congr 2
+    rw [← hxd, List.take_append_drop]
+  · rw [List.length_take]; omega
+
 theorem cstr_holds {m : Mem} {r : Bytes} (h : Holds m r) (hr : NulFree r) : cstr m = some r := by
   obtain ⟨x, rfl⟩ := h
   induction r with
